@@ -53,6 +53,10 @@ CHECKS = {
     technique='path-exhaustive symbolic summaries of the real line definitions (incl. the real Form.threshold on a symbolic filing status), each path restricted to a status by an SMT feasibility query; constants of the feasible paths compared with an independent table of published amounts',
     text='For each of 28 statutory entries (standard deductions, capital-gain breakpoints, AMT exemption/phase-out/28% breakpoint, QBI threshold, Additional Medicare thresholds, HSA limits, SALT cap, Form 1116 limit, saver credit limits, EIC limits, CTC/ODC/ACTC amounts and phase-outs, 2021 ARPA and recovery-rebate amounts, Schedule B threshold, NC rate / standard deduction / child deduction table) and every line in which it shows, the line summary is restricted to each of the 5 filing statuses (z3 feasibility per path); the numeric constants of the feasible paths must contain the published amount for that year and status and none of the other years / statuses amounts (stale or swapped constants). 315 (year, entry, line, status) obligations; violations are confirmed on the uninstrumented source.',
     design='4 C08', note=TB + '; oracle/statutory.json transcribed from Rev. Proc. 2020-45 / 2021-45 / 2022-38, form instructions and NC D-401 (it agreed with the shipped code on all but the 3 defects that were fixed)'),
+ 'C16': dict(
+    technique='relational SMT queries: per-line summary invariance under swapping the two copies of an input form (one query R(x,o1) and R(pi x,o2) and o1 != o2 per line, inductive along the read graph); two renamed copies of the whole-return model differing in one input for the monotonicity / exact-response claims',
+    text='(a) For K=2 copies of each input form (W-2, 1099-INT/DIV/R/G, 1098) and every line that reads a numbered copy, z3 shows that no values make the line differ when copies 0 and 1 are swapped (per-payer listing lines exempt); with an acyclic read graph the whole return is then invariant. (b) Wages up => total tax not lower, deduction up => not higher, withholding + d => refund-minus-owed + d are posed as relational queries on two copies of the whole-return model (both solved, figure_tax = the schedule term C07 verifies) under a time cap; queries that time out are reported INCONCLUSIVE and named in the evidence, never counted as discharged. Witnesses are replayed as two real solves.',
+    design='4 C16', note=TB + '; lines with more than 300 paths (NC withholding lines at K=2) and timed-out relational queries are inconclusive'),
  'C07': dict(
     technique='bounded symbolic execution of the real figure_tax on a symbolic real income (proxy objects through the real bytecode, z3 decides path feasibility) + per-path SMT equivalence with the statutory rate schedule',
     text='Every path of the real figure_tax/figure_tax_table/figure_tax_worksheet (one per table row and worksheet row, for each year and each of the 5 statuses) is enumerated by the symbolic executor; for each, z3 proves value(x) == schedule(x) for every real x on that path (unsat of the negation), that no feasible x falls through, and monotonicity across adjacent pieces. Holds for all real x in [0,1e12]; float rounding of the worksheet kernel is bounded by an NRA lemma under the IEEE standard model. Witnesses are replayed on the uninstrumented code before being reported.',
